@@ -1,7 +1,9 @@
 #!/bin/bash
-# usage: tools/mutwave.sh <seeded ids...>   -- runs each seeded change against the check of its property (quick tier)
-cd /verif
+# usage: tools/mutwave.sh <seeded ids...>   -- runs each seeded change against the check of its property
+# (quick tier by default; TIER=thorough). Uses the copy of /verif this script lives in, so it can run from a snapshot.
+here="$(cd "$(dirname "$0")/.." && pwd)"
+cd "$here"
 for id in "$@"; do
-	prop=$(python3 -c "import json;print(json.load(open('/verif/seeded/$id/meta.json'))['property'])")
-	tools/mutcheck.sh /verif/seeded/$id/patch.diff $prop ${TIER:-quick}
+	prop=$(python3 -c "import json;print(json.load(open('$here/seeded/$id/meta.json'))['property'])")
+	tools/mutcheck.sh "$here/seeded/$id/patch.diff" $prop ${TIER:-quick}
 done
